@@ -220,3 +220,44 @@ Proof.
   - repeat constructor; discriminate.
   - vm_compute. repeat split; reflexivity.
 Qed.
+
+(* ---------------- D. the oracle of the stream replay ---------------- *)
+
+(* [ok_C02] (Model/LtsOracle.v) is the boolean function that bin/check applies to (case,
+   observation of the real media.Stream after the case's schedule) in the stream
+   "join-at-every-prefix".  When the schedule has no close step (hypothesis of C02_join_contiguous)
+   and the queue limit is at least 2 * |pkts| + 4 (then nothing can be dropped for backlog,
+   C02_nothing_dropped_when_limit_large) it demands of every consumer: there is an r such that the
+   delivered ids are a prefix of
+       ids (spec_snap gopon (first r published packets)) ++ ids (published packets from index r on)
+   i.e. the replay is exactly the specification of part A after r packets and the live part is a
+   contiguous run of the published list starting at index r - no gap, no repeat. *)
+From V Require Import LtsOracle LtsOracleProofs LtsOracleC02Proofs.
+
+Theorem C02_nothing_dropped_when_limit_large :
+  forall gopon maxq ncons panic_at pkts stoppers sched c,
+  (2 * length pkts + 4 <= maxq)%nat ->
+  let k := s_cs _ (run fixed maxq rcache (rc_empty gopon) rc_add rc_snap ncons panic_at sched
+                       (init rcache (rc_empty gopon) pkts stoppers)) c in
+  c_disc k = false /\ forallb (fun b => b) (c_keep k) = true.
+Proof.
+  exact (fun g maxq n pa pkts stoppers sched c H =>
+           conj (nd_disc _ (proj1 (reachable_NI g maxq n pa pkts stoppers sched H c)))
+                (nd_keep _ (proj1 (reachable_NI g maxq n pa pkts stoppers sched H c)))).
+Qed.
+Print Assumptions C02_nothing_dropped_when_limit_large.
+
+Theorem C02_model_passes : forall c : lcase,
+  l_var c = fixed -> ok_C02 c (obs_of_state (l_n c) (lrun c)) = true.
+Proof. exact LtsOracleC02Proofs.C02_model_passes. Qed.
+Print Assumptions C02_model_passes.
+
+Theorem C02_oracle_decodes_the_wire : forall n (s : lstate),
+  dec_obs (enc_state n s) = obs_of_state n s.
+Proof. exact dec_enc_obs. Qed.
+Print Assumptions C02_oracle_decodes_the_wire.
+
+Theorem C02_model_passes_on_the_wire : forall v,
+  l_var (dec_lcase v) = fixed -> ok_C02 (dec_lcase v) (dec_obs (lts_run v)) = true.
+Proof. exact C02_wire_model_passes. Qed.
+Print Assumptions C02_model_passes_on_the_wire.
